@@ -228,3 +228,49 @@ func c05d05bKnownLengths(ctx *Ctx, j *c05Judge, scope *[]string) {
 	}
 	*scope = append(*scope, fmt.Sprintf("known collections with partly unknown members: length lower/upper/exact -1..5, alone, after NotNull, and followed by a second bound, on %d receivers (%d chains); Length() vs knownLength on each", len(recvs), cnt))
 }
+
+// c05d05bJointLength: C05.known_collection_is_assertion on the real code — the calls a known collection ACCEPTED hold
+// jointly of some length the collection can have (its stored length; 1..stored for a set with not wholly known members).
+func c05d05bJointLength(j *c05Judge, recv c05Recv, uRecv cty.Value, calls []c05Call, panicAt int) {
+	t := uRecv.Type()
+	if uRecv.IsNull() || !(t.IsListType() || t.IsSetType() || t.IsMapType()) {
+		return
+	}
+	nOK := len(calls)
+	if panicAt >= 0 {
+		nOK = panicAt
+	}
+	lo, hi := uRecv.LengthInt(), uRecv.LengthInt()
+	if t.IsSetType() && !uRecv.IsWhollyKnown() && hi >= 1 {
+		lo = 1
+	}
+	nLen := 0
+	for _, c := range calls[:nOK] {
+		if c.k == "ll" || c.k == "lu" || c.k == "cl" {
+			nLen++
+		}
+	}
+	if nLen == 0 {
+		return
+	}
+	j.ctx.Tag(fmt.Sprintf("d05b:joint-length:%d-accepted-length-calls", nLen))
+	for l := lo; l <= hi; l++ {
+		all := true
+		for _, c := range calls[:nOK] {
+			switch c.k {
+			case "ll":
+				all = all && c.n <= l
+			case "lu":
+				all = all && l <= c.n
+			case "cl":
+				all = all && c.n == l
+			}
+		}
+		if all {
+			return
+		}
+	}
+	j.fail("known-is-assertion", "length-constraints-jointly-excluding-every-possible-length-accepted:"+c05TyKind(t),
+		fmt.Sprintf("the accepted length constraints hold jointly of no length %d..%d the known collection can have", lo, hi),
+		recv, calls[:nOK], "no panic")
+}
